@@ -1,0 +1,44 @@
+//go:build verif
+
+package middleware
+
+import (
+	"bufio"
+	"io"
+	"sync"
+	"time"
+)
+
+// VerifSetClock replaces the store clock (verification hook, build tag verif).
+func (store *RateLimiterMemoryStore) VerifSetClock(f func() time.Time) {
+	store.mutex.Lock()
+	defer store.mutex.Unlock()
+	store.timeNow = f
+	store.lastCleanup = f()
+}
+
+// VerifVisitorCount returns number of identifiers the store currently remembers.
+func (store *RateLimiterMemoryStore) VerifVisitorCount() int {
+	store.mutex.Lock()
+	defer store.mutex.Unlock()
+	return len(store.visitors)
+}
+
+// VerifSetRandomSource makes randomString read from r; returned func restores crypto/rand.
+func VerifSetRandomSource(r io.Reader) func() {
+	old := randomReaderPool.New
+	randomReaderPool = sync.Pool{New: func() interface{} { return bufio.NewReader(r) }}
+	return func() { randomReaderPool = sync.Pool{New: old} }
+}
+
+// VerifRandomString exposes randomString.
+func VerifRandomString(n uint8) string { return randomString(n) }
+
+// VerifMatchSubdomain exposes matchSubdomain.
+func VerifMatchSubdomain(domain, pattern string) bool { return matchSubdomain(domain, pattern) }
+
+// VerifMatchScheme exposes matchScheme.
+func VerifMatchScheme(domain, pattern string) bool { return matchScheme(domain, pattern) }
+
+// VerifSanitizeURI exposes sanitizeURI.
+func VerifSanitizeURI(uri string) string { return sanitizeURI(uri) }
